@@ -73,7 +73,37 @@ def run(chk) -> None:
     log(f"X01: {info} -> {len(segs)} segments {kinds}")
     if kinds.get("run_begin", 0) < 20 or kinds.get("pool", 0) < 3 or kinds.get("worker", 0) < 20:
         raise MachineryError(f"X01: too few segments to mean anything: {kinds} (run_begin hook missing?)")
-    verdicts = suite_trace.validate(chk, segs)
+    # negative controls: corrupting one recorded field / dropping one event must be rejected
+    import copy
+    controls = []
+    seq = next((s for s in segs if s["events"][0]["ev"] == "run_begin"
+                and any(e["ev"] == "check" and e["n"] > 0 for e in s["events"])
+                and s["events"][-1]["ev"] == "finalize_end"), None)
+    pool_seg = next((s for s in segs if s["events"][0]["ev"] == "pool"), None)
+    wrk = next((s for s in segs if s["events"][0]["ev"] == "worker" and s["events"][-1]["ev"] == "worker_done"), None)
+    if seq is None or pool_seg is None or wrk is None:
+        raise MachineryError("X01: no segment suitable for the negative controls")
+    c1 = copy.deepcopy(seq)
+    next(e for e in c1["events"] if e["ev"] == "finalize_begin")["n"] += 1
+    controls.append((c1, "Conservation"))
+    c2 = copy.deepcopy(pool_seg)
+    c2["events"].remove(next(e for e in c2["events"] if e["ev"] == "done"))
+    controls.append((c2, "FinalizeBeforeCollection|CheckWithoutLintedFile"))
+    c3 = copy.deepcopy(wrk)
+    c3["events"][-1]["n"] += 1
+    controls.append((c3, "WorkerConservation"))
+    c4 = copy.deepcopy(seq)
+    c4["events"] = [e for e in c4["events"] if e["ev"] != "lint_file"]
+    controls.append((c4, "CheckWithoutLintedFile"))
+    c5 = copy.deepcopy(seq)
+    c5["events"] = c5["events"][:-1]
+    controls.append((c5, "UnfinishedRun"))
+    verdicts = suite_trace.validate(chk, segs + [c for c, _ in controls])
+    for (c, want), (la, _lb, _at) in zip(controls, verdicts[len(segs):]):
+        if la not in want.split("|"):
+            raise MachineryError(f"X01 negative control: expected {want}, SystemTrace said {la}")
+    chk.extra["negative_controls"] = [w for _, w in controls]
+    verdicts = verdicts[:len(segs)]
     for s, (la, _lb, at) in zip(segs, verdicts):
         first = s["events"][0]
         chk.count({"pid": str(s["pid"]), "first": first["ev"], "len": len(s["events"])}, nontrivial=len(s["events"]) > 2)
